@@ -331,6 +331,17 @@ func (p *Packer) packWalkFn(root, src, dst string, tarW *tar.Writer, meta *Meta,
 				return nil
 			}
 
+			// The file examined above was found by following the chain of
+			// links as it is spelled. The body is read by opening the link,
+			// which the kernel follows its own way: through a directory
+			// that is itself a link, "dir/../x" is somewhere else. What is
+			// opened must be the file that was examined.
+			if onDisk, err := os.Stat(path); err != nil {
+				return fmt.Errorf("failed to get file info for the target of symlink %q: %w", path, err)
+			} else if !os.SameFile(onDisk, resolved.info) {
+				return fmt.Errorf("failed to resolve symlink %q: its target %q is reached through another symlink", path, resolved.target)
+			}
+
 			// Dereference this symlink by updating the header with the target file
 			// details and set writeBody to true so the body will be written.
 			header.Typeflag = tar.TypeReg
